@@ -279,6 +279,10 @@ func (o *origin) RoundTrip(req *http.Request) (*http.Response, error) {
 		done("err")
 		return nil, errOrigin
 	}
+	if rp.NilResp {
+		done("err")
+		return nil, nil
+	}
 	resp, _, err := buildResponse(req, &rp, n, k)
 	if err != nil {
 		done("builderr")
@@ -765,6 +769,9 @@ func runHistory(t *testing.T, h *History) (lines []string) {
 			}
 			if op.Host != "" {
 				req.Host = op.Host
+			}
+			if op.NilHeader && len(op.Hdr) == 0 {
+				req.Header = nil
 			}
 			if op.Method == "(empty)" {
 				req.Method = ""
